@@ -169,7 +169,12 @@ def run(m: Model, r: Report, tier: str) -> None:
     inc_nodes = {x.id for x in g.nodes.values() if isinstance(x.ast, ast.AugAssign) and ast.unparse(x.ast.target) in counters}
     for h in heads:
         body_entry = g.succ[h][0][0]
-        ok2, p2 = g.must_pass(body_entry, inc_nodes, {h})
+        # (only back edges: paths that leave the pending loop - break / raise / return - and come back to its head in the next attempt start a new
+        # iteration count, the counters are re-initialised per attempt)
+        def leaves_loop(n_, b_, k_, _h=h):
+            a_ = g.nodes[b_].ast
+            return b_ != _h and a_ is not None and a_ is not WHILE and WHILE not in ancestors(a_, par)
+        ok2, p2 = g.must_pass(body_entry, inc_nodes, {h}, skip_edge=leaves_loop)
         r.check(ok2, "R2", f"{fn.qualname}#every-iteration-counts",
                 "an iteration of the pending loop can return to the loop head without incrementing a counter: "
                 + " -> ".join(repr(g.nodes[p]) for p in p2[-4:]), loc=fn.loc)
@@ -274,9 +279,12 @@ def run(m: Model, r: Report, tier: str) -> None:
     r.check(len(WHILE.orelse) == 1 and isinstance(WHILE.orelse[0], ast.Return) and ast.unparse(WHILE.orelse[0].value) == RESP, "R5", f"{fn.qualname}#final-reply-returned",
             "when the loop condition becomes false (a final reply arrived) that reply must be returned (while ... else: return)", loc=fn.loc)
     wbreaks = [n for n in ast.walk(WHILE) if isinstance(n, ast.Break)]
-    okb2 = len(wbreaks) == 1
+    # breaks out of the pending loop (-> next attempt): at the silent-poll limit, and in the handler for a connection lost while polling
+    conn_handlers_w = [h_ for h_ in ast.walk(WHILE) if isinstance(h_, ast.ExceptHandler) and h_.type is not None and ast.unparse(h_.type) == "ConnectionError"]
+    limit_breaks = [b_ for b_ in wbreaks if not any(b_ is x for h_ in conn_handlers_w for x in ast.walk(h_))]
+    okb2 = len(limit_breaks) == 1 and len(wbreaks) - len(limit_breaks) <= 1
     if okb2:
-        anc = ancestors(wbreaks[0], par)
+        anc = ancestors(limit_breaks[0], par)
         lim_if = next((a for a in anc if isinstance(a, ast.If)), None)
         okb2 = lim_if is not None and isinstance(lim_if.test, ast.Compare) and ast.unparse(lim_if.test.left) in counters and \
             any(isinstance(s_, ast.Assign) and "MissingResponse(" in ast.unparse(s_.value) for s_ in lim_if.body)
@@ -319,12 +327,11 @@ def run(m: Model, r: Report, tier: str) -> None:
         guard_ok = isinstance(nxt, ast.If) and ast.unparse(nxt.test) in (f"{RAW} == b''", f"not {RAW}", f"len({RAW}) == 0") and \
             isinstance(nxt.body[0], ast.Raise) and "BrokenPipeError" in ast.unparse(nxt.body[0])
         in_try = isinstance(blk, ast.Try) and a in blk.body
-        handles = in_try and any(h.type is not None and ast.unparse(h.type) == "ConnectionError" for h in blk.handlers) or \
-            (in_try and WHILE in ancestors(a, par))
-        # in the pending loop the BrokenPipeError propagates out of request_unsafe (no retry while pending): allowed; in the
-        # attempt itself it must be converted by the ConnectionError handler
+        handles = in_try and any(h.type is not None and ast.unparse(h.type) == "ConnectionError" for h in blk.handlers)
+        # in the attempt itself and in the pending loop the BrokenPipeError of an empty read must be converted by the ConnectionError handler of its try
         if WHILE in ancestors(a, par):
-            r.check(guard_ok, "R5", f"{fn.qualname}#empty-read-guard@pending", "the poll read is not followed by the empty-read guard", loc=fn.loc)
+            r.check(guard_ok and in_try and handles, "R5", f"{fn.qualname}#empty-read-guard@pending", "the poll read is not followed by the empty-read guard inside the try "
+                    "whose ConnectionError handler turns it into a retry / MissingResponse", loc=fn.loc)
         else:
             r.check(guard_ok and in_try and handles, "R5", f"{fn.qualname}#empty-read-guard@attempt",
                     "the empty-read -> BrokenPipeError guard must directly follow the transport request inside the try whose "
@@ -345,15 +352,24 @@ def run(m: Model, r: Report, tier: str) -> None:
           and WHILE not in ancestors(n, par)]
     if len(hs) != 1:
         raise AnalysisError(f"{fn.qualname}: ConnectionError handler of the attempt not found")
+    # a connection can be lost in the first exchange of an attempt and in every poll of the pending phase: both reads sit in a try whose ConnectionError
+    # handler records MissingResponse with the cause, reconnects iff retries remain and starts the next attempt (continue / break out of the pending loop)
+    polls_ = [n for n in ast.walk(WHILE) if isinstance(n, ast.Await) and "self._read(" in ast.unparse(n)]
+    hs_w = [h_ for t_ in ast.walk(WHILE) if isinstance(t_, ast.Try) and any(p_ is x for p_ in polls_ for b_ in t_.body for x in ast.walk(b_))
+            for h_ in t_.handlers if h_.type is not None and ast.unparse(h_.type) == "ConnectionError"]
+    r.check(bool(polls_) and len(hs_w) == 1, "R6", f"{fn.qualname}#connection-loss-while-pending",
+            "the poll read of the pending phase has no ConnectionError handler: a connection that is lost (reset, end of stream) after a responsePending leaves "
+            "request_unsafe as a raw ConnectionError / BrokenPipeError - no MissingResponse, no reconnect, no retransmission although retries remain", loc=fn.loc)
+    for h, where_, last_stmt in [(hs[0], "attempt", ast.Continue)] + [(x, "pending", ast.Break) for x in hs_w]:
+        cause = any(isinstance(s, ast.Assign) and ast.unparse(s.targets[0]) == f"{LAST}.__cause__" and ast.unparse(s.value) == h.name for s in h.body)
+        r.check(cause, "R6", f"{fn.qualname}#cause@{where_}", "the MissingResponse does not carry the ConnectionError as __cause__", loc=fn.loc)
+        rec = [n for n in ast.walk(h) if isinstance(n, ast.Call) and isinstance(n.func, ast.Attribute) and n.func.attr.startswith("reconnect")]
+        ok_rec = len(rec) == 1 and ast.unparse(rec[0].func) == "self.reconnect_unsafe" and \
+            any(isinstance(a, ast.If) and ast.unparse(a.test).replace(" ", "") == f"{IV}<{MR}" for a in ancestors(rec[0], par))
+        r.check(ok_rec, "R6", f"{fn.qualname}#reconnect@{where_}",
+                f"reconnect call(s) {[ast.unparse(x.func) for x in rec]}: must be reconnect_unsafe (the client mutex is already held) under `i < max_retry`", loc=fn.loc)
+        r.check(isinstance(h.body[-1], last_stmt), "R6", f"{fn.qualname}#handler-continues@{where_}", "the ConnectionError handler must start the next attempt", loc=fn.loc)
     h = hs[0]
-    cause = any(isinstance(s, ast.Assign) and ast.unparse(s.targets[0]) == f"{LAST}.__cause__" and ast.unparse(s.value) == h.name for s in h.body)
-    r.check(cause, "R6", f"{fn.qualname}#cause", "the MissingResponse does not carry the ConnectionError as __cause__", loc=fn.loc)
-    rec = [n for n in ast.walk(h) if isinstance(n, ast.Call) and isinstance(n.func, ast.Attribute) and n.func.attr.startswith("reconnect")]
-    ok_rec = len(rec) == 1 and ast.unparse(rec[0].func) == "self.reconnect_unsafe" and \
-        any(isinstance(a, ast.If) and ast.unparse(a.test).replace(" ", "") == f"{IV}<{MR}" for a in ancestors(rec[0], par))
-    r.check(ok_rec, "R6", f"{fn.qualname}#reconnect",
-            f"reconnect call(s) {[ast.unparse(x.func) for x in rec]}: must be reconnect_unsafe (the client mutex is already held) under `i < max_retry`", loc=fn.loc)
-    r.check(isinstance(h.body[-1], ast.Continue), "R6", f"{fn.qualname}#handler-continues", "the ConnectionError handler must start the next attempt", loc=fn.loc)
     to = [n for n in walk_no_nested(fn.node) if isinstance(n, ast.ExceptHandler) and n.type is not None and ast.unparse(n.type) == "TimeoutError"
           and WHILE not in ancestors(n, par)]
     r.check(len(to) == 1 and isinstance(to[0].body[-1], ast.Continue), "R6", f"{fn.qualname}#timeout-handler", "TimeoutError handler of the attempt changed", loc=fn.loc)
